@@ -593,8 +593,76 @@ def r5_growth_rechecks_the_limit(repo=None):
     return r
 
 
+def r6_scan_agrees_with_event_filter(repo=None):
+    """'Its bookkeeping always equals the truth about the files it tracks': a file taken into the ringbuffer by a scan of the disk
+    (at start, after an observer restart) must be one the handler accepts events for - otherwise its growth and its deletion are
+    never registered.  A listing with a start time *forward fills*: it also yields the latest metadata file named before the
+    start, which the handler's window rejects.  So every `ilsdrf` listing of the ringbuffer class that is given a time window
+    is filtered through the handler's own path match (`<handler>._match_path(path, True)`) before it is used."""
+    r = Rule("C16.R6", "files found by scanning the disk are tracked only if the event handler accepts events for them")
+    m = pyfront.mod("ringbuffer", repo)
+    n = 0
+    for q, f0 in m.functions.items():
+        if "." not in q or "<locals>" in q:
+            continue
+        fvw = m.flat(q)            # private helpers inlined: a listing made in a helper is judged where it is used
+        f = fvw.fn()
+        for c in pyfront.walk_no_nested(f):
+            if not (isinstance(c, ast.Call) and (pyfront.call_name(c) or "").split(".")[-1] == "ilsdrf"):
+                continue
+            kw = {k.arg: k.value for k in c.keywords}
+            windowed = any(k in kw and not (isinstance(kw[k], ast.Constant) and kw[k].value is None) for k in ("starttime", "endtime"))
+            if not windowed:
+                continue
+            # the name the listing is bound to (or the call itself) must be the iterable of a comprehension with the handler's match as filter
+            par = fvw.parents.get(c)
+            names = set()
+            if isinstance(par, ast.Assign):
+                names = {t.id for t in par.targets if isinstance(t, ast.Name)}
+            # does the listing reach the handler's bookkeeping?  names derived from it (set(), comprehensions, set differences) that are
+            # handed to a method of the event handler; a listing that is only measured (sizes summed for the budget) is not a scan
+            derived = set(names)
+            for _ in range(3):
+                for a_ in pyfront.walk_no_nested(f):
+                    if isinstance(a_, ast.Assign) and any(x is c or (isinstance(x, ast.Name) and x.id in derived) for x in ast.walk(a_.value)):
+                        derived |= {t.id for t in a_.targets if isinstance(t, ast.Name)}
+            to_handler = [k for k in pyfront.walk_no_nested(f) if isinstance(k, ast.Call) and "event_handler" in (pyfront.call_name(k) or "")
+                          and any(x is c or (isinstance(x, ast.Name) and x.id in derived) for a0 in list(k.args) + [kw_.value for kw_ in k.keywords] for x in ast.walk(a0))]
+            if not to_handler:
+                r.note("%s:%s %s: windowed listing not handed to the event handler (measured only)" % (m.rel, c.lineno, q))
+                continue
+            n += 1
+            filt = None
+            for g_ in pyfront.walk_no_nested(f):
+                if isinstance(g_, (ast.GeneratorExp, ast.ListComp, ast.SetComp)) and len(g_.generators) == 1:
+                    it = g_.generators[0].iter
+                    if it is c or (isinstance(it, ast.Name) and it.id in names):
+                        tgt = g_.generators[0].target
+                        for cond in g_.generators[0].ifs:
+                            if isinstance(cond, ast.Call) and isinstance(cond.func, ast.Attribute) and cond.func.attr == "_match_path" \
+                                    and len(cond.args) == 2 and isinstance(tgt, ast.Name) and isinstance(cond.args[0], ast.Name) \
+                                    and cond.args[0].id == tgt.id and pyfront.const(cond.args[1]) is True and isinstance(g_.elt, ast.Name) \
+                                    and g_.elt.id == tgt.id:
+                                filt = g_
+            other_uses = [x for x in pyfront.walk_no_nested(f) if isinstance(x, ast.Name) and x.id in names and isinstance(x.ctx, ast.Load)
+                          and not (filt is not None and any(x is y for y in ast.walk(filt)))]
+            site = "%s:%s %s `%s`" % (m.rel, c.lineno, q, norm(ast.unparse(c))[:60])
+            if filt is not None and not other_uses:
+                r.ok(site, "the windowed listing is used only through `%s`" % norm(ast.unparse(filt))[:80])
+            else:
+                r.violation(m.rel, q, norm(ast.unparse(c))[:80], "a listing with a time window forward fills (it includes the latest metadata "
+                            "file named before the start time), and its files are taken into the ringbuffer unfiltered, but the "
+                            "handler drops every event for a file outside of the window: the record of that file - usually the one "
+                            "being appended to - goes stale (growth not counted, size limit exceeded unnoticed, deletion never "
+                            "registered)", line=c.lineno)
+    if n < 1:
+        raise AnalysisError("ringbuffer: no windowed ilsdrf listing found (2 scan sites were confirmed on the reference tree)")
+    r.guard(1)
+    return r
+
+
 def rules(repo=None):
-    return [lambda: r1_only_tracked_paths_deleted(repo), lambda: r2_accounting_pairs_with_mutation(repo),
+    return [lambda: r6_scan_agrees_with_event_filter(repo), lambda: r1_only_tracked_paths_deleted(repo), lambda: r2_accounting_pairs_with_mutation(repo),
             lambda: r3_oldest_first_and_owners(repo), lambda: r4_limits_reestablished(repo), lambda: r5_growth_rechecks_the_limit(repo)]
 
 
